@@ -98,7 +98,7 @@ theorem holdsRun_intro (w : World) (f : Nat) (c : Cmd) (na : Bool) (r : Run)
   by_cases hz : ident w f = 0
   · right
     obtain ⟨a, b, d, e⟩ := h0 hz
-    refine ⟨⟨⟨a, b⟩, d⟩, ?_⟩
+    refine ⟨⟨⟨a, b⟩, by rw [d]; simp⟩, ?_⟩
     cases na with
     | false => left; rfl
     | true => right; exact e rfl
@@ -478,5 +478,27 @@ theorem h_domList (w : World) (f : Nat) (c : Cmd) :
 /-- open handlers: a success response without any view, change or delivery -/
 theorem holdsRun_okEmpty (w : World) (f : Nat) (c : Cmd) : holdsRun w f c false (Run.okResp [] [] []) = true := by
   apply holdsRun_intro <;> simp [Run.okResp]
+
+
+/-- the fallback without executor: only the asking connection itself receives anything -/
+theorem execNoExec_holds (w : World) (f : Nat) (c : Cmd) (na : Bool) : holdsRun w f c na (execNoExec w f c) = true := by
+  unfold execNoExec
+  split
+  · split
+    · exact holdsRun_err ..
+    · split
+      · rename_i hz
+        simp only [beq_iff_eq] at hz
+        unfold holdsRun
+        simp [hz, dlvAllowed]
+      · rename_i hz
+        simp only [beq_iff_eq] at hz
+        apply holdsRun_intro
+        · exact clientMaps_party w _
+        · intro x hx; simp at hx
+        · intro d hd; simp only [List.mem_singleton] at hd; subst hd; simp [dlvAllowed]
+        · intro g hg; simp at hg
+        · intro h0; exact absurd h0 hz
+  · exact holdsRun_quiet ..
 
 end Tunnox.C11
